@@ -6,6 +6,7 @@ import (
 	"time"
 
 	pb "github.com/libp2p/go-libp2p-pubsub/pb"
+	"github.com/libp2p/go-libp2p/core/peer"
 )
 
 // ---- C07: mesh maintenance keeps every joined topic's mesh within its invariants -------------------
@@ -345,3 +346,73 @@ func vpHT_C07_heartbeat_p4a() { vpOpt("unwind", 10); vpHeartbeatStep(4, vpParams
 func vpHT_C07_heartbeat_p4b() { vpOpt("unwind", 10); vpHeartbeatStep(4, vpParamsTuple(2, 2, 3, 2, 0), 1) }
 func vpHT_C07_heartbeat_c() { vpOpt("unwind", 10); vpHeartbeatStep(5, vpParamsTuple(4, 2, 4, 1, 1), 0) }
 func vpH_C07_heartbeat_zero() { vpOpt("unwind", 10); vpHeartbeatStep(3, vpParamsTuple(0, 0, 0, 0, 0), 0) }
+
+// graftprune: the heartbeat's coalescing sender. Arbitrary per-peer GRAFT and PRUNE topic lists over two topics (a peer
+// may be grafted into one mesh and pruned from another in the same heartbeat): every peer is told exactly its GRAFTs
+// and PRUNEs, once each.
+func vpH_C07_graftprune() {
+	vpOpt("unwind", 8)
+	params := vpSmallParams()
+	nd := vpNewNode("self", vpNodeCfg{router: "gossipsub", params: &params, doPX: true})
+	gs := nd.gs
+	peers := []peer.ID{"p0", "p1", "p2"}
+	qs := []*rpcQueue{}
+	for _, p := range peers {
+		qs = append(qs, nd.vpAddPeer(p, GossipSubID_v11, true))
+	}
+	topics := []string{vpT0, "t1"}
+	tograft, toprune, noPX := map[peer.ID][]string{}, map[peer.ID][]string{}, map[peer.ID]bool{}
+	var act [3][2]int // per peer and topic: 0 nothing, 1 graft, 2 prune
+	for i, p := range peers {
+		for t := range topics {
+			a := vpInt("action", 0, 2)
+			act[i][t] = a
+			switch a {
+			case 1:
+				tograft[p] = append(tograft[p], topics[t])
+			case 2:
+				toprune[p] = append(toprune[p], topics[t])
+			}
+		}
+		if vpBool("no_px") {
+			noPX[p] = true
+		}
+	}
+	gs.sendGraftPrune(tograft, toprune, noPX)
+	for i := range peers {
+		var g, pr [2]int
+		nb := 0
+		for _, r := range vpDrain(qs[i]) {
+			for _, x := range r.GetControl().GetGraft() {
+				for t := range topics {
+					if x.GetTopicID() == topics[t] {
+						g[t]++
+					}
+				}
+			}
+			for _, x := range r.GetControl().GetPrune() {
+				for t := range topics {
+					if x.GetTopicID() == topics[t] {
+						pr[t]++
+						if x.Backoff != nil && x.GetBackoff() == uint64(gs.params.PruneBackoff/time.Second) {
+							nb++
+						}
+					}
+				}
+			}
+		}
+		for t := range topics {
+			wg, wp := 0, 0
+			if act[i][t] == 1 {
+				wg = 1
+			}
+			if act[i][t] == 2 {
+				wp = 1
+			}
+			vpAssert(g[t] == wg, "a peer is sent exactly one GRAFT for each mesh it was added to and none otherwise")
+			vpAssert(pr[t] == wp, "a peer is sent exactly one PRUNE for each mesh it was removed from and none otherwise, also when it is grafted elsewhere in the same heartbeat")
+		}
+		vpAssert(nb == pr[0]+pr[1], "every PRUNE carries the prune backoff")
+	}
+	vpCover(act[0][0] == 1 && act[0][1] == 2, "grafted into one mesh and pruned from another in the same heartbeat")
+}
